@@ -2,6 +2,7 @@ package verif
 
 import (
 	"fmt"
+	"runtime"
 	"sort"
 	"testing/synctest"
 	"time"
@@ -211,7 +212,7 @@ func (r *Run) Step(p *NetPolicy, extra []Ev, idle time.Duration) bool {
 	default:
 	}
 	r.Steps++
-	heartbeat(r)
+	r.maybeGC()
 	evs := append(r.NetEvents(p), extra...)
 	if len(evs) == 0 {
 		// sleep until the system does something observable or idle passes
@@ -257,7 +258,7 @@ func (r *Run) Settle(quiet, limit time.Duration, extra func() []Ev) {
 		default:
 		}
 		r.Steps++
-		heartbeat(r)
+		r.maybeGC()
 		evs := r.NetEvents(p)
 		if extra != nil {
 			evs = append(evs, extra()...)
@@ -291,6 +292,7 @@ func (r *Run) RunFor(d time.Duration) {
 		default:
 		}
 		r.Steps++
+		r.maybeGC()
 		evs := r.NetEvents(p)
 		if len(evs) == 0 {
 			rem := time.Until(deadline)
@@ -307,5 +309,16 @@ func (r *Run) RunFor(d time.Duration) {
 			continue
 		}
 		evs[0].Do()
+	}
+}
+
+// maybeGC collects garbage at a quiescent point every few thousand driver
+// decisions. The collector is otherwise off during a run (a concurrent cycle
+// would perturb goroutine scheduling); a collection placed by step count is
+// the same in every replay, and keeps long histories (hours of simulated
+// polling, 64 KiB receive buffers per exchange) within the worker's memory limit.
+func (r *Run) maybeGC() {
+	if r.Steps%4000 == 0 {
+		runtime.GC()
 	}
 }
